@@ -147,8 +147,10 @@ def res(synset1: Synset, synset2: Synset, ic: Freq) -> float:
 
     """
     _check_if_pos_compatible(synset1.pos, synset2.pos)
-    lcs = _most_informative_lcs(synset1, synset2, ic)
-    return information_content(lcs, ic)
+    subsumers = synset1.common_hypernyms(synset2)
+    if not subsumers:
+        raise wn.Error(f'no common hypernyms for {synset1!r} and {synset2!r}')
+    return max(information_content(ss, ic) for ss in subsumers)
 
 
 def jcn(synset1: Synset, synset2: Synset, ic: Freq) -> float:
